@@ -501,6 +501,11 @@ def modified_vars(fn, n):
         if c and c[0] == 'var':
             out.add(c[1])
     elif k in ('call', 'construct'):
+        st = store_of(fn, n)
+        if st is not None:
+            c = carrier_of(fn, st[0])
+            if c and c[0] == 'var':
+                out.add(c[1])
         for a in n.get('args', []) or []:
             an = fn.sn(a) if a is not None else None
             if an is not None and an.get('k') == 'unop' and an.get('op') == '&':
@@ -562,6 +567,16 @@ def _freeze(env, facts=None):
     return frozenset(env.items())
 
 
+def store_of(fn, n):
+    """(target expression id, stored value expression id) when node n stores into a variable / member:
+    plain assignment `x = v`, or std::exchange(x, v) (reads the old value, stores v).  Else None."""
+    if n.get('k') == 'assign' and n.get('op') == '=':
+        return n['lhs'], n['rhs']
+    if n.get('k') == 'call' and n.get('q') == 'std::exchange' and len(n.get('args', []) or []) == 2 and None not in n['args']:
+        return n['args'][0], n['args'][1]
+    return None
+
+
 def stored_value(fn, nid, env):
     """Failure set a store of expression nid puts into its target: the carried value itself, or -- for a boolean computed
     from a carrier (`const bool failed = n <= 0;`) -- the definite truth value {1} / {0}."""
@@ -586,6 +601,22 @@ def _transfer(fn, n, env, fb, depth, memo):
     k = n.get('k')
     if k == 'throw':
         return env, 'throw'
+    if k == 'call' and n.get('q') == 'std::exchange' and store_of(fn, n) is not None:
+        tgt, val = store_of(fn, n)
+        c = carrier_of(fn, tgt)
+        if c is not None:
+            new = dict(env)
+            old = env.get(c)
+            fs = stored_value(fn, val, env)
+            if old is not None:
+                new[('node', n['id'])] = old      # the call yields the previous value
+            else:
+                new.pop(('node', n['id']), None)
+            if fs is not None:
+                new[c] = fs
+            else:
+                new.pop(c, None)
+            return new, None
     if k in ('call', 'construct'):
         if n.get('noret'):
             return env, 'noret'
